@@ -37,8 +37,8 @@ pub fn mix(v: u8, a: u8, idx: u8) -> u8 {
 }
 
 pub const MAXA: usize = 4; // actions per harness
-pub const MAXR: usize = 3; // reducers
-pub const MAXM: usize = 3; // middlewares
+pub const MAXR: usize = 6; // reducers (ids)
+pub const MAXM: usize = 6; // middlewares (ids)
 pub const MAXS: usize = 3; // subscribers
 pub const MAXE: usize = MAXA * MAXR; // effect ids (one per reducer per action)
 
@@ -139,6 +139,14 @@ pub fn cur() -> usize {
 pub static mut STORE: Option<Arc<Store>> = None;
 
 pub fn reset() {
+    reset_tables();
+    unsafe {
+        super::VIOL = [false; 20];
+    }
+}
+
+/// everything except the verdict flags (harnesses that make several runs)
+pub fn reset_tables() {
     unsafe {
         RED = [[REC0; MAXR]; MAXA];
         MW = [[[REC0; 3]; MAXM]; MAXA];
@@ -161,7 +169,6 @@ pub fn reset() {
         CUR = 0;
         CUR_CHAN = 0;
         core::ptr::write(&mut STORE, None);
-        super::VIOL = [false; 20];
     }
 }
 
